@@ -370,10 +370,37 @@ def lrec_grammar(rng: random.Random):
         rules = [('expr', [], ('choice', [('seq', [('call', 'expr'), ('tok', op1), ('call', 'term')]), ('call', 'term')])),
                  ('term', [], ('choice', [('seq', [('call', 'term'), ('tok', op2), ('call', 'factor')]), ('call', 'factor')])),
                  ('factor', [], atom)]
+    if len(rules) >= 2 and rng.random() < 0.2:
+        # rule names that differ only by underscores (expr / expr_, term / _term) are different rules
+        names = [n for n, _, _ in rules]
+        i = rng.randrange(1, len(rules))
+        base = names[i - 1] if rng.random() < 0.7 else names[0]
+        new = rng.choice([base + '_', base + '__', '_' + base])
+        renamed = None
+        if new not in names:
+            rules = rename_rule(rules, names[i], new)
+            renamed = (names[i], new)
+    else:
+        renamed = None
     start_eof = rng.random() < 0.5
     if start_eof:
         rules = [('start', [], ('seq', [('call', 'expr'), 'eof']))] + rules
-    return {'rules': rules, 'directives': {}, 'keywords': []}, kind
+    g = {'rules': rules, 'directives': {}, 'keywords': []}
+    if renamed:
+        g['renamed'] = renamed          # (the name the templates use, the name in this grammar)
+    return g, kind
+
+
+def rename_rule(rules, old, new):
+    def ren(e):
+        if isinstance(e, tuple):
+            if len(e) == 2 and e[0] == 'call' and e[1] == old:
+                return ('call', new)
+            return tuple(ren(x) for x in e)
+        if isinstance(e, list):
+            return [ren(x) for x in e]
+        return e
+    return [(new if n == old else n, d, ren(e)) for n, d, e in rules]
 
 
 def lrec_inputs(rng: random.Random, n: int, maxlen=7, g=None):
